@@ -257,7 +257,7 @@ PROPS = {
         "assumptions": ["loader is a function of the URL during one call", "the root document is served at its own location with the content the caller passes"],
     },
     "C03": {
-        "props": "theories/Props/C03.v", "gens": [("tables", "Codec/Gen_Tables.v")], "cluster": "expand", "gen": "expand", "ops": ["expand_spec"],
+        "props": "theories/Props/C03.v", "gens": [("tables", "Codec/Gen_Tables.v")], "cluster": "expand", "gen": "expand", "ops": ["expand_spec"], "extra_oracles": ["C03cyc"],
         "n": {"quick": 120, "thorough": 1500}, "oracle_n": {"quick": 150, "thorough": 3000},
         "rule": 'correspondence: ExpandSpec on generated multi-document reference graphs (1-5 documents in the same/sub/parent directories and an http host; local, sibling, ./ ../, root-relative and absolute refs; nested-pointer and whole-document targets; escaped names; refs at every sub-schema keyword; parameters/responses/path items by $ref; cycles of every small topology; fault injection; all option combinations) + a bounded-exhaustive sample of graphs over <=3 definitions x <=2 documents; oracle: every remaining $ref resolves from the root location to a node on a cycle of the input graph (SCCs of canonical refs); acyclic => no $ref and byte-identical reruns; rendering of kept refs; non-trivial = graph with at least one $ref',
         "trusted_base": COMMON_TB + ["Expand/Expand.v: hand model of expander.go / schema_loader.go / resolver.go on JSON trees (base-path threading, parent stack, memo of circular refs, resolver roots, deref chains, rebasing, SkipSchemas/ContinueOnError/AbsoluteCircularRef, cache and loader log); abstractions: sub-schemas visited in JSON member order, `#/` refs into the live root read the original root (outputs on cyclic graphs compared through unfoldings)",
@@ -269,7 +269,7 @@ PROPS = {
         "assumptions": ["loader is a function of the URL during one call", "documents are in normal form (reference objects carry only $ref)"],
     },
     "C04": {
-        "props": "theories/Props/C04.v", "gens": [("tables", "Codec/Gen_Tables.v")], "cluster": "expand", "gen": "expand", "ops": ["expand_spec"], "extra_oracles": ["C04ids", "C04spell"],
+        "props": "theories/Props/C04.v", "gens": [("tables", "Codec/Gen_Tables.v")], "cluster": "expand", "gen": "expand", "ops": ["expand_spec"], "extra_oracles": ["C04ids", "C04spell", "C04ptr"],
         "n": {"quick": 120, "thorough": 1500}, "oracle_n": {"quick": 150, "thorough": 3000},
         "rule": 'correspondence: ExpandSpec on generated multi-document reference graphs (1-5 documents in the same/sub/parent directories and an http host; local, sibling, ./ ../, root-relative and absolute refs; nested-pointer and whole-document targets; escaped names; refs at every sub-schema keyword; parameters/responses/path items by $ref; cycles of every small topology; fault injection; all option combinations) + a bounded-exhaustive sample of graphs over <=3 definitions x <=2 documents; oracle: every entry point x the four SkipSchemas/ContinueOnError combinations returns within a time limit without panic, in a killable worker for graphs with ids; non-trivial: all',
         "trusted_base": COMMON_TB + ["Expand/Expand.v: hand model of expander.go / schema_loader.go / resolver.go on JSON trees (base-path threading, parent stack, memo of circular refs, resolver roots, deref chains, rebasing, SkipSchemas/ContinueOnError/AbsoluteCircularRef, cache and loader log); abstractions: sub-schemas visited in JSON member order, `#/` refs into the live root read the original root (outputs on cyclic graphs compared through unfoldings)",
